@@ -188,6 +188,10 @@ def step (j : Json) : Json :=
                   -- the common form the PROPERTY speaks of: xsi:nil and the empty string read as XSD reads them
                   ("commonGood", Json.bool (commonForm F { X with nilRule := .xsdBoolean, emptyStringText := true } A.tns A.tns t x)),
                   ("denote", Json.bool (validS (denoteG A A.tns t) false x))])).toArray)]
+  | "defaultLit" =>
+    Json.mkObj [("lit", match defaultLiteral F (primOf (getObj j "p")) (valOf (getObj j "val")) with
+                        | some t => textJson t
+                        | none => Json.null)]
   | "conformsX" =>
     -- the hypotheses of `emitted_valid` on a value
     let t := tyOf (getObj j "ty")
